@@ -330,14 +330,3 @@ func (x *Exec) rangeSet(n *ast.RangeStmt, rv *Val, st *St, fr *Frame, k func(*St
 	oos("range over a map at %s", x.W.pos(n.Pos()))
 }
 
-func (x *Exec) selectStmt(n *ast.SelectStmt, st *St, fr *Frame, k func(*St)) {
-	oos("select statement at %s", x.W.pos(n.Pos()))
-}
-
-func (x *Exec) sendStmt(n *ast.SendStmt, st *St, fr *Frame, k func(*St)) {
-	oos("channel send at %s", x.W.pos(n.Pos()))
-}
-
-func (x *Exec) recvStmt(r *ast.UnaryExpr, lhs []ast.Expr, define bool, st *St, fr *Frame, k func(*St)) {
-	oos("channel receive at %s", x.W.pos(r.Pos()))
-}
